@@ -199,22 +199,29 @@ def run_case(case):
     if any(np.asarray(x).shape != (T,) for x in ([S, I] + ([R] if call.sir else []))):
         viol(res, '%s|series_shape' % tag, {'shapes': [list(np.asarray(x).shape) for x in [S, I]]})
         return res
+    # The pairwise / effective-degree closures divide by [S]-type quantities; once the susceptible class is (numerically) exhausted the right-hand
+    # sides are singular and the solver output is not meaningful (observed with gamma=0 on dense graphs: silent blow-up to 1e200 after S has
+    # reached 0).  Rows after the first index at which S < 5e-3 N are therefore not judged (counted in the evidence); that row itself gets the
+    # wide tolerance.
+    cut = np.nonzero(S < 5e-3 * N)[0]
+    tail = len(cut) > 0
+    if tail:
+        kcut = int(cut[0]) + 1
+        bump(res, 'singular_tail_cases_truncated')
+        S, I = S[:kcut], I[:kcut]
+        if R is not None:
+            R = R[:kcut]
     if not (np.all(np.isfinite(S)) and np.all(np.isfinite(I)) and (R is None or np.all(np.isfinite(R)))):
         bump(res, 'discarded_nonfinite')
         return res
     tot = S + I + (R if call.sir else 0)
-    bump(res, 'conservation_rows_checked', T)
+    bump(res, 'conservation_rows_checked', len(S))
+    slack = 5e-3 * N if tail else 1e-6 * N
     err = float(np.max(np.abs(tot - N)))
     setmax(res, 'max_conservation_error_over_N', err / N)
-    if err > 1e-6 * N:
+    if err > slack:
         k = int(np.argmax(np.abs(tot - N)))
         viol(res, '%s|population_conserved' % tag, {'index': k, 'S+I+R': float(tot[k]), 'N': N})
-    # closures that divide by [S]-type quantities are numerically singular when the susceptible class is (almost) exhausted: there the
-    # solver's local error is amplified (observed: +-1e-3 N with gamma=0).  Tolerances are widened in that regime only, and it is counted.
-    tail = S.min() < 5e-3 * N
-    if tail:
-        bump(res, 'singular_tail_cases_with_wide_tolerance')
-    slack = 5e-3 * N if tail else 1e-6 * N
     lo, hi = -slack, N + slack
     for nm, x in (('S', S), ('I', I), ('R', R)):
         if x is not None and (x.min() < lo or x.max() > hi):
